@@ -597,6 +597,9 @@ func utf16IndexBytes(s, sep []uint16) int {
 }
 
 func (s unicodeString) index(substr String, start int) int {
+	if start > s.Length() {
+		return -1
+	}
 	var ss []uint16
 	a, u := devirtualizeString(substr)
 	if u != nil {
